@@ -39,6 +39,7 @@ def judge (stream : String) (kv : KV) : Option Verdict :=
   | "ex03" => some (ExJ.judge 3 kv)
   | "ex20" => some (ExJ.judge 20 kv)
   | "vi" => some (ViSpec.judge 0 kv)
+  | "vi05" => some (ViSpec.judge 5 kv)
   | "vi07" => some (ViSpec.judge 7 kv)
   | "vi13" => some (ViSpec.judge 13 kv)
   | "vi19" => some (ViSpec.judge 19 kv)
